@@ -15,7 +15,7 @@ import (
 // is an observable event.
 
 func init() {
-	Register(&World{Name: "cond", Props: []string{"C16"}, Concurrent: true, MaxSteps: 4000, Run: condWorld})
+	Register(&World{Name: "cond", Episodes: true, Props: []string{"C16"}, Concurrent: true, MaxSteps: 4000, Run: condWorld})
 	ExpectedProbes["cond"] = []string{"two-waiters-in-window-at-signal", "signal-while-waiter-in-window", "broadcast-while-waiter-in-window", "wait-cancelled", "wait-woken-by-signal", "wait-woken-by-broadcast"}
 }
 
